@@ -169,6 +169,10 @@ func ItemCollectionDeduplication(recCols ...*ItemCollection) ItemCollection {
 			} else {
 				continue
 			}
+			if len(testIt) == 0 {
+				// an entry without an id names nobody: it can not be a duplicate
+				continue
+			}
 			for _, it := range rec {
 				if testIt.Equals(it.GetID(), false) {
 					// mark the element for removal
